@@ -428,6 +428,62 @@ def loopio(r):
     return s
 
 
+def scanclear(r):
+    """a non-destructive read of cell p (copy through a scratch cell), then a pointer-moving empty
+    loop that really moves ([>] over non-zero cells), then [-] at the *same offset* p relative to the
+    new pointer, whose value is observed by output and decides whether a later [] or counted loop
+    ends: the clear after the scan names another cell than the read before it"""
+    p = r.choice([1, 1, 2])
+    s = ''.join(r.choice([',', '+++', '++', ',']) + '>' for _ in range(p)) + r.choice([',', '++++', ','])
+    s += '[->+>+<<]>>[-<<+>>]'                       # at p: [p+1] += [p], [p] kept; now at p+2
+    s += '>' + r.choice(['+', '+', '']) + '<' * (p + 3)     # a marker at p+3, back to cell 0
+    s += r.choice(['[>]', '[>]', '[>]', '[>>]'])            # stops on the first zero cell
+    s += '>' * p + '[-]' + r.choice(['.', '+.', '.', ''])  # offset p from where the scan stopped
+    s += r.choice(['>>[]', '<[]', '>[.-]', '<<<[]', '', '[]', '>[]'])
+    s += r.choice(['<<<.<.<.', '.>.>.', '+.', '<.<.'])
+    return s
+
+
+def stridescan(r):
+    """fused scans with a stride of 2-4 cells in either direction over a strip of cells in which the
+    cells *between* the visited ones are zero (or not): the scan must look at every stride-th cell
+    only, and stop on the first of those that is zero"""
+    st = r.choice([2, 2, 3, 4])
+    n = r.randint(2, 6)                 # number of visited cells before the stop
+    fw, bw = ('>', '<') if r.below(2) else ('<', '>')
+    s = ''
+    # lay out: visited cells non-zero, cells in between zero or non-zero at random, stop cell zero
+    for i in range(n):
+        s += r.choice(['+', '++', ',', '+']) + fw
+        for _ in range(st - 1):
+            s += r.choice(['', '', '+']) + fw
+    s += bw * (n * st)                  # back to the first visited cell
+    s += '[' + fw * st + ']'
+    s += '+.' + fw + '.' + bw + bw + '.' + bw + '.'
+    if r.below(2):
+        s += bw * 2 + '[' + bw * st + ']' + '.'
+    return s
+
+
+def emptyspin(r):
+    """divergent programs whose cycle contains nothing but branches: a loop on a cell that stays
+    non-zero whose body is only loops that are skipped (or that end on the first pass), or a skipped
+    loop followed directly by `[]` on a non-zero cell — every branch of the cycle is reached by a
+    jump, never by falling through from a straight-line instruction"""
+    pre = r.choice(['', '', '+.', ',.', '>,<'])
+    init = r.choice(['+', '++', ',', ','])
+    inner = ''.join('>' * d + '[' + r.choice(['.-', '-', '.', ',', '>+<-', '.[-]']) + ']' + '<' * d
+                    for d in [r.randint(1, 3) for _ in range(r.randint(1, 3))])
+    k = r.below(4)
+    if k == 0:
+        return pre + init + '[' + inner + ']' + r.choice(['', '.', '+.'])
+    if k == 1:
+        return pre + '>' + r.choice([',', '+++', '']) + '<' + init + '[>[.-]<]' + '.'
+    if k == 2:
+        return pre + init + '>' + r.choice([',', '++']) + '[.-]<[]' + '+.'
+    return pre + init + '[' + '[' + inner + ']' + ']' + '.'
+
+
 def deepnest(r):
     """loops nested 200-700 deep (around 255/256/257 and 511/512 in particular), skipped on a zero
     cell, entered once, or skipped inside an entered loop: counters of nesting depth must not be
@@ -496,7 +552,7 @@ def shiftif(r):
     return s
 
 
-GENS = {"deepnest": deepnest, "mulcounter": mulcounter, "tailloop": tailloop, "loopio": loopio, "shiftif": shiftif, "ifnest": ifnest, "uniform": uniform, "nestuse": nestuse, "longrun": longrun, "iopressure": iopressure, "squares": squares, "macro": macro, "pressure": pressure, "affine": affine, "bigconst": bigconst,
+GENS = {"scanclear": scanclear, "stridescan": stridescan, "emptyspin": emptyspin, "deepnest": deepnest, "mulcounter": mulcounter, "tailloop": tailloop, "loopio": loopio, "shiftif": shiftif, "ifnest": ifnest, "uniform": uniform, "nestuse": nestuse, "longrun": longrun, "iopressure": iopressure, "squares": squares, "macro": macro, "pressure": pressure, "affine": affine, "bigconst": bigconst,
         "roam": roam, "diverge": diverge}
 
 
